@@ -7,6 +7,7 @@ import (
 	"net/http/httptest"
 	"strings"
 	"sync"
+	"sync/atomic"
 	"time"
 
 	"github.com/gorilla/websocket"
@@ -22,8 +23,10 @@ type Rig struct {
 	Cancel context.CancelFunc
 	Front  chan struct{} // closed when ServeFront returned
 	Opt    *sniproxy.Options
-	mu     sync.Mutex
-	eps    []*sniproxy.Endpoint
+	// SideDialDelay slows down every websocket dial of an endpoint except its first (the control connection)
+	SideDialDelay time.Duration
+	mu            sync.Mutex
+	eps           []*sniproxy.Endpoint
 }
 
 // NewRig starts a server whose lookup maps "<x>.test" to endpoint "ep<x>",
@@ -70,9 +73,20 @@ func NewRig(mode string, lookup func(string) (*sniproxy.Dest, error), cfg *snipr
 
 // Endpoint connects endpoint "ep<name>" and waits until it is registered.
 func (r *Rig) Endpoint(name string) (*sniproxy.Endpoint, error) {
+	var dials int32
+	delay := r.SideDialDelay
+	wd := &websocket.Dialer{ReadBufferSize: 64 << 10, WriteBufferSize: 64 << 10}
+	if delay > 0 {
+		wd.NetDialContext = func(ctx context.Context, network, addr string) (net.Conn, error) {
+			if atomic.AddInt32(&dials, 1) > 1 {
+				time.Sleep(delay)
+			}
+			var d net.Dialer
+			return d.DialContext(ctx, network, addr)
+		}
+	}
 	ep, err := sniproxy.Dial(context.Background(), &sniproxy.StaticRouter{Host: r.TS.Listener.Addr().String()},
-		&sniproxy.DialOption{Path: "/" + name, WithoutTLS: true, TunnelOptions: r.Opt,
-			Dialer: &websocket.Dialer{ReadBufferSize: 64 << 10, WriteBufferSize: 64 << 10}})
+		&sniproxy.DialOption{Path: "/" + name, WithoutTLS: true, TunnelOptions: r.Opt, Dialer: wd})
 	if err != nil {
 		return nil, err
 	}
